@@ -7,6 +7,7 @@ CONSTANTS
   Alias <- AliasInt
   IntVal <- IntValInt
   Travs <- AllTravs
+  LenEnabled = TRUE
   MaxSteps = 7
   ViewHist = 1
   EmitAll = TRUE
